@@ -174,6 +174,17 @@ struct ArrayFamily : Family {
     op0(FINISH);
   }
   bool terminal(const Op &o) const override { return o.c == FINISH; }
+  void pre_witness(Instance *ip, const Op &op, Ctx &ctx) override
+  {
+    AInst *in  = (AInst *)ip;
+    bool   ins = op.c == INSERT_FIRST || op.c == INSERT_LAST || op.c == INSERTDATA_FIRST || op.c == INSERTDATA_LAST ||
+               ((op.c == INSERT_AT || op.c == INSERTDATA_AT) && op.a == 0);
+    if (ins && in->model.empty() && exd_array_offset(in->arr) > 0) {
+      ctx.witness("emptied_from_front_then_insert");
+      if (exd_array_offset(in->arr) == exd_array_alloc(in->arr)) ctx.witness("insert_with_offset_at_alloc_end");
+    }
+    if (op.c == FINISH && exd_array_offset(in->arr) != 0) ctx.witness("finish_with_offset");
+  }
 
   // full comparison of the observable content with the model
   void compare(AInst *in, Ctx &ctx)
@@ -310,7 +321,6 @@ struct ArrayFamily : Family {
         }
         if (ctx.checking) {
           ctx.outcome(raw ? "pointer" : (consumed ? "null-consumed" : "null-failed"));
-          if (off0 != 0) ctx.witness("finish_with_offset");
           if (!consumed) ctx.fail("retval-mismatch", "ares_array_finish failed (returned NULL and kept the container) with " + std::to_string(n) + " member(s), offset " + std::to_string(off0) + ", alloc " + std::to_string(alloc0));
           else if (raw == nullptr && n != 0) ctx.fail("retval-mismatch", "ares_array_finish returned NULL for " + std::to_string(n) + " member(s)");
           else if (num != n) ctx.fail("len-mismatch", "ares_array_finish num_members=" + std::to_string(num) + " model=" + std::to_string(n));
@@ -345,8 +355,6 @@ struct ArrayFamily : Family {
     if (is_insert && st == ARES_SUCCESS) {
       if (alloc1 > alloc0 && alloc0 != 0) ctx.witness("grew");
       if (alloc1 > alloc0 && alloc0 >= 8) ctx.witness("grew_twice");
-      if (cnt0 == 0 && off0 > 0) ctx.witness("emptied_from_front_then_insert");
-      if (cnt0 == 0 && off0 > 0 && off0 == alloc0) ctx.witness("insert_with_offset_at_alloc_end");
       if (off0 > 0 && off1 == 0) ctx.witness("compacted_on_insert");
     }
     if (op.c == SET_SIZE && alloc1 > alloc0) ctx.witness("set_size_grew");
